@@ -265,6 +265,7 @@ def attempt(case, variant=0, workdir=None, opt=None):
                   'revoked': '@revoked '}[ln['marker']]
         text.append(f'{marker}{pat} {ktxt} comment{i}')
         forms.append(fname)
+    per_line = list(zip(lines, text))
     if v % 7 == 3:
         text.insert(0, '# a comment line')
         text.append('')
@@ -322,9 +323,85 @@ def attempt(case, variant=0, workdir=None, opt=None):
 
     tmp = None
     ckw = {}
+    srcdir = None
+    home_before = os.environ.get('HOME')
+    sources = case.get('userSet', 'na') != 'na'
+    config_arg = None
+    if sources:
+        # ---- where the trust data comes from: default file / config -----
+        import tempfile
+        srcdir = tempfile.mkdtemp(prefix='src_', dir=workdir)
+        home = os.path.join(srcdir, 'home')
+        os.makedirs(os.path.join(home, '.ssh'))
+        u, g = case['userSet'], case['globalSet']
+        paths = {'udef': os.path.join(home, '.ssh', 'known_hosts'),
+                 'ucfg1': os.path.join(srcdir, 'user_hosts_1'),
+                 'ucfg2': os.path.join(srcdir, 'user_hosts_2'),
+                 'gcfg1': os.path.join(srcdir, 'global_hosts_1'),
+                 'gcfg2': os.path.join(srcdir, 'global_hosts_2'),
+                 'decoy': os.path.join(srcdir, 'decoy_hosts')}
+        exists = {'udef': True, 'ucfg1': u in ('one', 'two'),
+                  'ucfg2': u == 'two', 'gcfg1': g in ('one', 'two'),
+                  'gcfg2': g == 'two', 'decoy': True}
+        content = {k: [] for k in paths}
+        for ln, t in per_line:
+            content[ln['src']].append(t)
+        # a file that would accept the server, named only in a block which
+        # does not apply to this host
+        for kid, mk in (('K1', ''), ('CA1', '@cert-authority ')):
+            kt = catype if kid.startswith('CA') else ktype
+            content['decoy'].append(
+                f'{mk}* ' + ' '.join(pubtext(key(kid, kt))))
+        if not content['udef'] and v % 2 == 0:
+            exists['udef'] = False          # no default file at all
+        for k, pth in paths.items():
+            if exists[k]:
+                with open(pth, 'w') as f:
+                    f.write(''.join(x + '\n' for x in content[k]))
+        ud = {'unset': None, 'none': 'UserKnownHostsFile none',
+              'one': f'UserKnownHostsFile {paths["ucfg1"]}',
+              'two': f'UserKnownHostsFile {paths["ucfg1"]} '
+                     f'{paths["ucfg2"]}'}[u]
+        gd = {'unset': None, 'one': f'GlobalKnownHostsFile {paths["gcfg1"]}',
+              'two': f'GlobalKnownHostsFile {paths["gcfg1"]} '
+                     f'{paths["gcfg2"]}'}[g]
+        decoy = (f'Host zz.example\n  UserKnownHostsFile {paths["decoy"]}\n'
+                 f'  GlobalKnownHostsFile {paths["decoy"]}\n')
+        pv = (v // 5) % 5
+        ind = lambda d: f'  {d}\n' if d else ''
+        top = lambda d: f'{d}\n' if d else ''
+        cfgs = []
+        if pv == 0:
+            cfgs = [top(ud) + top(gd)]
+        elif pv == 1:
+            cfgs = [decoy + 'Host *\n' + ind(gd) + ind(ud)]
+        elif pv == 2:
+            # first value wins: a later "Host *" block changes nothing
+            # for an option the host's own block has set
+            later = ''
+            if ud and gd:
+                later = decoy.replace('zz.example', '*')
+            cfgs = [decoy + f'Host {real_host}\n' + ind(ud) + ind(gd) +
+                    later]
+        elif pv == 3:
+            cfgs = [top(ud) + f'Match host {real_host}\n' + ind(gd)]
+        else:
+            cfgs = [top(ud) + decoy, 'Host *\n' + ind(gd)]
+        config_arg = []
+        for n, txt in enumerate(cfgs):
+            pth = os.path.join(srcdir, f'ssh_config_{n}')
+            with open(pth, 'w') as f:
+                f.write(txt)
+            config_arg.append(pth)
+        os.environ['HOME'] = home
+        r.kh_text = ''.join(
+            f'--- {k}{"" if exists[k] else " (absent)"}\n' +
+            ''.join(x + '\n' for x in content[k]) for k in paths) + \
+            ''.join(f'--- config {n}\n{t}' for n, t in enumerate(cfgs))
+        r.info['sources'] = {'user': u, 'global': g, 'placement': pv}
     khform = opt.get('kh') or ['bytes', 'path', 'object', 'bytes',
                                'bytes'][v % 5]
-    if khform in ('path', 'pathlist') and not workdir:
+    if khform in ('path', 'pathlist') and (not workdir or sources):
         khform = 'bytes'
     if case['mode'] == 'none':
         kh = None
@@ -401,10 +478,14 @@ def attempt(case, variant=0, workdir=None, opt=None):
         st['acc'] = await asyncssh.listen(
             ADDR, P, server_factory=Server, server_host_keys=[kp],
             kex_algs=['curve25519-sha256'])
+        if sources:
+            src_kw = {'config': config_arg}     # known_hosts not given
+        else:
+            src_kw = {'known_hosts': kh, 'config': None}
         conn = await asyncssh.connect(
-            real_host, P, known_hosts=kh, config=None, client_keys=None,
+            real_host, P, client_keys=None,
             client_factory=Client, username='u', password=PASSWORD,
-            kex_algs=['curve25519-sha256'], **ckw)
+            kex_algs=['curve25519-sha256'], **src_kw, **ckw)
         st['conn'] = conn
         r.accepted = True
         return conn
@@ -430,6 +511,13 @@ def attempt(case, variant=0, workdir=None, opt=None):
     finally:
         clock.now = None
         close_loop(loop)
+        if srcdir:
+            import shutil
+            if home_before is None:
+                os.environ.pop('HOME', None)
+            else:
+                os.environ['HOME'] = home_before
+            shutil.rmtree(srcdir, ignore_errors=True)
         if tmp:
             try:
                 os.remove(tmp)
